@@ -4366,6 +4366,17 @@ impl Handler {
             .clone()
             .or(session_kg_owned)
             .or(default_kg_owned);
+        // A program that starts with a query and comes with a session is executed by
+        // query_program_with_session, which runs it - all of its statements - on the
+        // SESSION's graph even when an explicit graph was passed as well: authorize it
+        // against that graph.
+        if trimmed.starts_with('?') {
+            if let Some(sid) = session_id {
+                if let Ok(session_kg) = self.sessions.session_kg(sid) {
+                    current_kg = Some(session_kg);
+                }
+            }
+        }
 
         let logical_program = join_continuation_lines(&strip_comments(trimmed));
         let mut created_here: Vec<String> = Vec::new();
